@@ -95,6 +95,9 @@ PeekCore(q, key, val) ==
   /\ val = q
   /\ UNCHANGED pvars
 
+\* a call made by a rule received arguments a and b, both computed from the calling request's id
+ArgPairCore(a, b) == a = b /\ UNCHANGED pvars
+
 \* a rule body of request q ran: rule r compiled with body tag t
 RuleRunCore(q, r, t) ==
   /\ q \in DOMAIN rq /\ rq[q].st = "holding"
